@@ -16,7 +16,7 @@ import (
 	"github.com/centrifugal/protocol"
 )
 
-var paths = []string{"stream-live", "stream-recovery", "cache-recovery", "map-pages-and-live", "map-recovery-join", "map-streamless", "map-filter-change"}
+var paths = []string{"stream-live", "stream-recovery", "cache-recovery", "map-pages-and-live", "map-recovery-join", "map-streamless", "map-filter-change", "stream-filter-refresh"}
 
 type world struct {
 	c     *kit.Case
@@ -172,6 +172,76 @@ func runCase(c *kit.Case) {
 		conn.Subscribe(req)
 		x.w.Settle()
 		pubStream(r.Range(0, 5))
+	case "stream-filter-refresh":
+		// A live stream subscription whose server tags filter is replaced on sub refresh, twice; the
+		// third filter is the first one again in half of the cases (A -> B -> A). Every publication is
+		// judged against the server filter that was in force when it was published (publishing starts
+		// only after the refresh reply has arrived).
+		conn = mk(centrifuge.SubscribeOptions{ExpireAt: time.Now().Unix() + 3600})
+		conn.Subscribe(&protocol.SubscribeRequest{Channel: sch, Tf: recov.CloneFilter(cf.Node)})
+		x.w.Settle()
+		pickNew := func(not recov.TagFilter) recov.TagFilter {
+			for {
+				f := recov.Filters[1+r.Intn(len(recov.Filters)-1)]
+				if f.Name != not.Name {
+					return f
+				}
+			}
+		}
+		phases := []recov.TagFilter{sf}
+		if sf.Node == nil {
+			phases[0] = sf // no server filter at first: the refreshes install one
+		}
+		phases = append(phases, pickNew(phases[0]))
+		if r.Bool() && phases[0].Node != nil {
+			phases = append(phases, phases[0])
+			c.Count("server_filter_refreshed_back_to_the_first_one", 1)
+		} else {
+			phases = append(phases, pickNew(phases[1]))
+		}
+		phaseOf := map[string]int{}
+		for pi, f := range phases {
+			if pi > 0 {
+				x.mu.Lock()
+				x.newSF[conn.Client] = recov.CloneFilter(f.Node)
+				x.mu.Unlock()
+				id := conn.NextID()
+				conn.Do(&protocol.Command{Id: id, SubRefresh: &protocol.SubRefreshRequest{Channel: sch, Token: "t"}})
+				if fr, ok := conn.WaitReply(id); !ok || fr.Reply.Error != nil {
+					c.Inconclusive("stream-filter-refresh: sub refresh was not acknowledged")
+					x.w.Shutdown()
+					return
+				}
+				c.Count("server_filter_replaced_on_sub_refresh", 1)
+			}
+			for k, n := 0, r.Range(4, 12); k < n; k++ {
+				tag := kit.Pick(r, tags)
+				data, pid := x.id(tag)
+				phaseOf[pid] = pi
+				_, _ = node.Publish(sch, data, centrifuge.WithHistory(100, time.Minute), centrifuge.WithTags(map[string]string{"t": tag}))
+			}
+			x.w.Settle()
+		}
+		ids, via := held(conn, sch)
+		for i, pid := range ids {
+			x.mu.Lock()
+			tag := x.tagOf[pid]
+			x.mu.Unlock()
+			f := phases[phaseOf[pid]]
+			if !cf.Admit(tag) || !f.Admit(tag) {
+				names := []string{}
+				for _, ph := range phases {
+					names = append(names, ph.Name)
+				}
+				c.Violation("c16-server-filter-bypassed-after-sub-refresh", fmt.Sprintf("server tags filter replaced on sub refresh %v: publication %s (tag %q), published while filter #%d (%s) was in force, was delivered through %s (client filter %s)", names, pid, tag, phaseOf[pid], f.Name, via[i], cf.Name),
+					map[string]any{"filters_in_order": names, "client_filter": cf.Name})
+				break
+			}
+		}
+		c.Count("publications_checked_"+path, len(ids))
+		c.Nontrivial(fmt.Sprintf("%s|%s|%s>%s>%s|%d", path, cf.Name, phases[0].Name, phases[1].Name, phases[2].Name, bucket(len(ids))))
+		x.w.Shutdown()
+		return
 	case "map-pages-and-live", "map-streamless", "map-recovery-join", "map-filter-change":
 		ch = mch
 		pubMap(r.Range(4, 30))
@@ -301,11 +371,11 @@ func TestC16(t *testing.T) {
 	kit.Main(t, kit.Spec{
 		ID:     "C16",
 		Bubble: true,
-		Rule: "case index enumerates the delivery path: live broadcast, stream recovery, cache recovery (client-requested / AutoCacheRecover), map state pages + stream pages + live transition with concurrent writes, map recovery join (live or stream phase), streamless (ephemeral) map, and a server-tags-filter change on sub refresh; client and server filters are drawn from {none, eq, neq, in, not(eq), match-nothing} over one tag with values a/b/c. " +
+		Rule: "case index enumerates the delivery path: live broadcast, stream recovery, cache recovery (client-requested / AutoCacheRecover), map state pages + stream pages + live transition with concurrent writes, map recovery join (live or stream phase), streamless (ephemeral) map, a server-tags-filter change on sub refresh of a map subscription, and two successive server-tags-filter replacements on sub refresh of a live stream subscription (the last one back to the first filter in half of the cases) with every publication judged against the filter in force when it was published; client and server filters are drawn from {none, eq, neq, in, not(eq), match-nothing} over one tag with values a/b/c. " +
 			"Oracle: every publication the subscription is handed (subscribe-result publications, state entries, live pushes) has tags admitted by BOTH filters according to reference predicates defined in the harness; a changed server tags filter of a map subscription yields an unsubscribe push 2502. Signature = path x filters x #publications bucket.",
 		Assumptions:     []string{"delta encoding is not negotiated (the statement excludes delta subscriptions)", "filter semantics of the six filters are fixed by hand-written predicates, independent of the engine"},
 		Cases:           map[string]int{"quick": 1400, "thorough": 28000},
-		RequireCounters: []string{"publications_checked_stream-live", "publications_checked_stream-recovery", "publications_checked_cache-recovery", "publications_checked_map-pages-and-live", "publications_checked_map-recovery-join", "publications_checked_map-streamless", "map_subscription_invalidated_on_filter_change"},
+		RequireCounters: []string{"publications_checked_stream-live", "publications_checked_stream-recovery", "publications_checked_cache-recovery", "publications_checked_map-pages-and-live", "publications_checked_map-recovery-join", "publications_checked_map-streamless", "map_subscription_invalidated_on_filter_change", "publications_checked_stream-filter-refresh", "server_filter_refreshed_back_to_the_first_one", "server_filter_replaced_on_sub_refresh"},
 		Run:             runCase,
 	})
 }
